@@ -23,7 +23,7 @@ def typed(name, coq_type, coq_term):
 
 
 def shape(name, text):
-    return Item(name, "shape", text=text)
+    return Item(name, "shape", text=norm_shape(text) if isinstance(text, str) else text)
 
 
 def parse(repo, rel):
@@ -61,6 +61,8 @@ def strip_doc(body):
 
 
 class _Inert(ast.NodeTransformer):
+    strip_logs = False
+
     """drop statements that cannot change behaviour relevant to any model: docstrings,
     bare string/constant expressions, logger.* calls, `pass` next to other statements"""
 
@@ -69,7 +71,7 @@ class _Inert(ast.NodeTransformer):
         for st in body:
             if isinstance(st, ast.Expr) and isinstance(st.value, ast.Constant):
                 continue
-            if _is_log_call(st):
+            if self.strip_logs and _is_log_call(st):
                 continue
             out.append(st)
         return out or [ast.Pass()]
@@ -147,13 +149,27 @@ def _alpha(fn):
 
 
 def func_shape(fn):
-    """normalised text of a function: arguments + body; docstrings, comments and logger calls gone,
-    local variables renamed to L0_, L1_, ... in order of first binding (parameters keep their names:
-    callers may pass them by keyword)"""
+    """text of a function: arguments + body, docstrings and comments gone (translators match this against templates)"""
     fn = _Inert().visit(ast.parse(ast.unparse(fn)).body[0])
-    if isinstance(fn, (ast.FunctionDef, ast.AsyncFunctionDef)):
-        fn = _alpha(fn)
     return ast.unparse(fn)
+
+
+class _InertNoLogs(_Inert):
+    strip_logs = True
+
+
+def norm_shape(text):
+    """what a shape snapshot stores: if the text is one function definition, logger calls are dropped and local variables
+    (not parameters: callers may pass them by keyword) are renamed L0_, L1_, ... in order of first binding; anything else
+    is kept as it is. Renaming a local, re-wording a log line or re-commenting therefore does not break a snapshot."""
+    try:
+        mod = ast.parse(text)
+    except SyntaxError:
+        return text
+    if len(mod.body) != 1 or not isinstance(mod.body[0], (ast.FunctionDef, ast.AsyncFunctionDef)):
+        return text
+    fn = _InertNoLogs().visit(mod.body[0])
+    return ast.unparse(_alpha(fn))
 
 
 def const_int(node):
